@@ -228,6 +228,14 @@ func genC01(c *Ctx) {
 		c.Check("c01.md4_history", L(h...))
 		c.Case("md4.ops", L(h...))
 	}
+	// the bit counter at values no amount of written data reaches in a test: 2^32 bits (512 MiB), 2^35, 2^61, and
+	// the wrap of the 64-bit counter (hook MD4.VerifAddCount): data, jump, data, Sum, Sum
+	for _, jump := range []uint64{1 << 32, 1<<32 - 512, 1 << 35, 1 << 61, 1<<64 - 512, 1<<64 - 1024, 1<<63 + 1<<32} {
+		for _, n := range []int{0, 1, 55, 56, 63, 64, 65, 119} {
+			pre := r.Bytes(r.Pick(0, 3, 64))
+			c.Case("md4.ops_ext", L(B(pre), L(U(jump)), B(r.Bytes(n)), I(0), I(1), B(r.Bytes(r.Intn(70))), I(0)))
+		}
+	}
 	for rep := 0; rep < c.N(300, 6000); rep++ {
 		nops := 2 + r.Intn(9)
 		var ops []Val
